@@ -175,6 +175,18 @@ def handle(cmd, args):
         m1, m2 = P.match_single(p, q), P.match_single(e, q)
         if (m1 is None) != (m2 is None) or (m1 is not None and {k: full(v) for k, v in m1.items()} != {k: full(v) for k, v in m2.items()}):
             bad.append('match_single(pattern)')
+        # ... and against another application of the SAME notation (the shared body object): argument-wise instances, and variants
+        # that differ from p in one argument only (an argument the body ignores must not influence the answer)
+        if isinstance(p, P.Instantiate):
+            def same(m1, m2):
+                return (m1 is None) == (m2 is None) and (m1 is None or {k: full(v) for k, v in m1.items()} == {k: full(v) for k, v in m2.items()})
+            variants = [P.Instantiate(p.pattern, frozendict({k: v.instantiate(d) for k, v in p.inst.items()}))]
+            for k in list(p.inst)[:3]:
+                variants.append(P.Instantiate(p.pattern, frozendict({j: (plug if j == k else v) for j, v in p.inst.items()})))
+            for v2 in variants:
+                if not same(P.match_single(p, v2), P.match_single(e, expand_obj(v2))):
+                    bad.append('match_single(same-notation)')
+                    break
         return 'true' if not bad else '(false %s)' % ' '.join(b.replace(' ', '-') for b in bad)
     if cmd == 'law-match-sound':
         # soundness: a successful match re-instantiates to the instance and respects the seed bindings
@@ -239,6 +251,22 @@ def handle(cmd, args):
             return '(false rebuilt-differs)'
         if not (n(*r) == app):
             return '(false rebuilt-not-==)'
+        # the same for applications of the body that were NOT built by Notation.__call__ (Interpreter.instantiate_pattern builds
+        # them): keys in another order, and a partial map — whatever `matches` returns must rebuild the pattern
+        items = list(enumerate(argv))
+        alts = []
+        if len(items) >= 2:
+            alts.append(P.Instantiate(n.definition, frozendict(reversed(items))))
+        if items:
+            alts.append(P.Instantiate(n.definition, frozendict(items[1:])))
+        for alt in alts:
+            ra = n.matches(alt)
+            if ra is None:
+                continue
+            if len(ra) != n.arity:
+                return '(false matches-arity %d)' % len(ra)
+            if full(n(*ra)) != full(alt):
+                return '(false rebuilt-differs-noncanonical)'
         return 'true'
     if cmd in ('rule-mp', 'rule-gen', 'rule-inst'):
         return rule(cmd, args)
